@@ -275,6 +275,20 @@ func doDump(p *Prog, what, rules string) {
 	case "symbols":
 		b, _ := json.MarshalIndent(p.inventory(), "", " ")
 		fmt.Println(string(b))
+	case "lookups":
+		for _, f := range p.Funcs {
+			instrsOf(f, func(in ssa.Instruction) {
+				lk, ok := in.(*ssa.Lookup)
+				if !ok {
+					return
+				}
+				mt, ok := lk.X.Type().Underlying().(*types.Map)
+				if !ok {
+					return
+				}
+				fmt.Printf("%s %s commaok=%v val=%s  %s\n", p.instrPos(lk), funcKey(f), lk.CommaOk, mt.Elem().String(), p.pureKey(lk.X))
+			})
+		}
 	case "divs":
 		for _, f := range p.Funcs {
 			instrsOf(f, func(in ssa.Instruction) {
